@@ -57,12 +57,14 @@ from common import Violation, sexp, Atom, parse_sexp, StrTok
 
 TITLE = "continuous factors: constraints, inputs, windows"
 LEVEL = "proof"
+DOMAINS = ['Cont', 'Design']
 LEVEL_NOTE = ("safety only: liveness of the resample loop of Block.sample_continuous depends on the distribution and is "
               "out of scope (partial); the model takes explicit fuel, the harness distributions raise GiveUp")
 
 NANVAL = -3            # what a "replace" function substitutes for NaN
 CALL_LIMIT_ATTEMPTS = 40
-THEOREMS = ["C22_continuous_spec", "C22_window_val_spec", "C22_discrete_untouched"]
+THEOREMS = ["C22_continuous_spec", "C22_window_val_spec", "C22_window_val_shape", "C22_discrete_untouched",
+            "C22_dependency_check_partial", "C22_dependency_check_sound_refuted", "C22_dependency_check_complete_refuted"]
 
 
 class GiveUp(Exception):
@@ -199,6 +201,8 @@ def apply_fn(program, fdesc, args):
 
 def pred_fn(pred, n):
     k = pred[0]
+    if n == 0:
+        return lambda: True
     if k == "le":
         b = pred[1]
         return (lambda a: a <= b) if n == 1 else (lambda a, c: a + c <= b)
@@ -483,6 +487,8 @@ def search_experiment(program, cfs, ccs, T, e, pre):
     if pre is not None:
         for k, vs in pre:
             if k in contnames:
+                bad.append(("discrete-overwritten", "the sampler's column %r is replaced by the continuous factor of the same "
+                            "name: %r -> %r" % (k, vs, e.get(k))))
                 continue
             if k not in e or list(e[k]) != list(vs):
                 bad.append(("discrete-changed", "discrete column %r changed by the continuous merge: %r -> %r" % (k, vs, e.get(k))))
@@ -571,7 +577,9 @@ def judge(program, strategy, n, seed, real=None):
         except Unsupported as ex:
             b = [("unsupported-value", "returned experiment holds a value outside int/NaN/str: %s" % ex)]
         bad += [(s, "experiment %d: %s" % (ei, w)) for s, w in b]
-    if real["experiments"]:
+    names = [f["name"] for f in program["factors"]]
+    clash = len(set(names)) < len(names)      # duplicate factor names: reported as an observation (discrete-overwritten)
+    if real["experiments"] and not clash:
         v = discrete_verdicts(program, real["experiments"])
         if v is not None and not all(v):
             # is the discrete sampler at fault also without the continuous factors?
@@ -652,7 +660,7 @@ def gen_case(rng):
               "coef": [rng.choice([1, 1, 2, -1, 3]) for _ in deps],
               "nanmode": "propagate" if rng.random() < 0.2 else "replace",
               "seed": rng.randint(0, 10 ** 6), "lo": 0, "hi": size - 1}
-        program["factors"].append({"id": fid, "name": "c%d" % j, "kind": "continuous", "cdist": cd})
+        program["factors"].append({"id": fid, "name": "cf%d" % j, "kind": "continuous", "cdist": cd})
         cids.append(fid)
     fm = fmap(program)
     # where the continuous factors sit in the design
@@ -796,6 +804,13 @@ def dependency_programs():
     out.append(("cont-dep-on-window-derived", prog([col, c0, w1, chain2], [0, 100, 101, 102]), "valid"))
     chain3 = CF(102, "c2", [{"t": "cont", "f": 101}])
     out.append(("cont-dep-chain", prog([col, c0, d_c0, chain3], [0, 100, 101, 102]), "valid"))
+    # degenerate declarations
+    out.append(("name-clash-with-discrete", prog([col, CF(100, "color")], [0, 100]), "undocumented"))
+    p0 = prog([col, c0], [0, 100])
+    p0["constraints"].append({"id": 1, "kind": "ContinuousConstraint", "factors": [], "pred": ["le", 0]})
+    p0["blocks"][0]["constraints"].append(1)
+    out.append(("constraint-without-factors", p0, "undocumented"))
+    out.append(("number-dependent", prog([col, CF(100, "c0", [{"t": "num", "v": 3}])], [0, 100]), "invalid"))
     return out
 
 
@@ -884,6 +899,15 @@ def describe(program):
     return "%s with continuous factors %s" % (design_batch.shape(program), "; ".join(parts))
 
 
+def in_continuous_sampling(real):
+    """Did the exception of a failed run come out of _sample_continuous / _check_constraints?"""
+    exps = real.get("rec", {}).get("exps") or []
+    if not exps or not exps[-1]:
+        return False
+    last = exps[-1][-1]
+    return last["out"] is None or last["ok"] is None
+
+
 def corr_lines(case, real):
     """Model command lines and expected values for one successfully or unsuccessfully sampled case."""
     program = case["program"]
@@ -946,7 +970,7 @@ def compare(layer, out, want):
 
 def run(ctx, res):
     rng = ctx.rng
-    ncases = 140 if ctx.quick else 1500
+    ncases = 220 if ctx.quick else 2000
     nwin = 1500 if ctx.quick else 20000
     ndep = 150 if ctx.quick else 1500
     res.rule = ("%d seeded programs: discrete part from gen_design.gen_program (shapes cross / multi / repeat, 1-3 basic factors, "
@@ -957,7 +981,7 @@ def run(ctx, res):
                 "positions and 0-2 ContinuousConstraints (le / ge / ne / lt on 1-2 factors, bounds that fail for about a third "
                 "of the draws); RandomGen or IterateSATGen, 1-3 experiments; %d get_window_val cases (0-3 factors, width -1..4, "
                 "stride -1..3, start None/-1..5, missing keys, short lists, NaN entries); %d dependency shapes at the "
-                "constructor; 9 combinator and 11 dependency hand-built programs.  Non-trivial = the sampled program has a "
+                "constructor; 9 combinator and 14 dependency / degenerate hand-built programs.  Non-trivial = the sampled program has a "
                 "dependent continuous factor or a ContinuousConstraint" % (ncases, nwin, ndep))
     res.assumptions.append(LEVEL_NOTE)
     res.extra["level_note"] = LEVEL_NOTE
@@ -1013,6 +1037,10 @@ def run(ctx, res):
         for sig, why in bad:
             note("c22:" + sig, "%s, %s: %s" % (describe(program), case["strategy"], why),
                  dict(case, sig="c22:" + sig), len(json.dumps(program)))
+        if st == "error" and not in_continuous_sampling(real):
+            stats["error"] -= 1
+            stats["discrete-side-error-not-c22"] = stats.get("discrete-side-error-not-c22", 0) + 1
+            continue
         if st in ("ok", "error") and "rec" in real:
             if st == "error":
                 observations.append(("generated:accepted-design-raises", describe(program), real["error"][1], real["error"][2][:120]))
@@ -1035,9 +1063,9 @@ def run(ctx, res):
             if real["status"] in ("rejected", "error"):
                 observations.append(("combinator:" + label, strategy, real["error"][1], real["error"][2][:160]))
             for sig, why in bad:
-                kind = design_batch.shape(program)
-                note("c22:%s:%s" % (sig, kind), "%s (%s), %s: %s" % (describe(program), label, strategy, why),
-                     dict(case, sig="c22:%s:%s" % (sig, kind)), len(json.dumps(program)))
+                full = "c22:%s:%s" % (sig, design_batch.shape(program)) if sig == "missing-values" else "c22:" + sig
+                note(full, "%s (%s), %s: %s" % (describe(program), label, strategy, why),
+                     dict(case, sig=full), len(json.dumps(program)))
             if real["status"] == "ok":
                 for layer, line, want in corr_lines(case, real):
                     add(layer, line, want, label)
@@ -1057,12 +1085,16 @@ def run(ctx, res):
         if expectation != "valid" and st == "error":
             observations.append(("accepted-design-raises:" + label, describe(program), real["error"][1], real["error"][2][:160]))
         for sig, why in bad:
+            if sig == "discrete-overwritten":
+                observations.append(("duplicate-name:" + label, describe(program), sig, why[:200]))
+                continue
             note("c22:" + sig, "%s (%s): %s" % (describe(program), label, why), dict(case, sig="c22:" + sig),
                  len(json.dumps(program)))
-        cfl = [w_cfactor(program, fd) for fd in declared_cfactors(program)]
-        add("checkdep", sexp([Atom("checkdep"), cfl]),
-            "raise" if (st == "rejected" and real["error"][1] == "RuntimeError" and "Derived Conitunuous" in real["error"][2]) else "ok",
-            label)
+        if ("factor", 100) not in real["built"].errors:
+            cfl = [w_cfactor(program, fd) for fd in declared_cfactors(program)]
+            add("checkdep", sexp([Atom("checkdep"), cfl]),
+                "raise" if (st == "rejected" and real["error"][1] == "RuntimeError" and "Derived Conitunuous" in real["error"][2]) else "ok",
+                label)
         if st in ("ok", "error") and "rec" in real:
             for layer, line, want in corr_lines(case, real):
                 add(layer, line, want, label)
